@@ -1191,6 +1191,26 @@ func (tr *gtTr) library(pkg, name string, c *ast.CallExpr, env *venv) ex {
 			gtFail("%s: arguments are not strings", full)
 		}
 		return ex{binds: mergeBinds(s.binds, nw.binds), code: "(go_replace_all " + bstrLit(old) + " " + nw.code + " " + s.code + ")", typ: tString}
+	case pkg == "strings" && name == "Join":
+		// strings.Join(strings.Split(s, old), new) with a non-empty constant old: every non-overlapping occurrence of old,
+		// from the left, replaced by new -- the same function as strings.Replace(s, old, new, -1), and translated as that
+		need(2)
+		inner, ok := unparen(c.Args[0]).(*ast.CallExpr)
+		if ok {
+			if p2, n2, isLib := tr.libCall(inner, env); isLib && p2 == "strings" && n2 == "Split" && len(inner.Args) == 2 {
+				old := tr.constString(inner.Args[1], env, "strings.Split")
+				if old == "" {
+					gtFail("strings.Split: empty separator")
+				}
+				s := tr.expr(inner.Args[0], env)
+				nw := tr.expr(c.Args[1], env)
+				if s.typ.kind != kString || nw.typ.kind != kString {
+					gtFail("%s: arguments are not strings", full)
+				}
+				return ex{binds: mergeBinds(s.binds, nw.binds), code: "(go_replace_all " + bstrLit(old) + " " + nw.code + " " + s.code + ")", typ: tString}
+			}
+		}
+		gtFail("strings.Join is in the subset only as strings.Join(strings.Split(s, <constant>), new)")
 	case (pkg == "strings" || pkg == "bytes") && (name == "Count" || name == "LastIndex" || name == "Index"):
 		need(2)
 		sep := tr.constStringOrBytes(c.Args[1], env, full)
@@ -1203,6 +1223,23 @@ func (tr *gtTr) library(pkg, name string, c *ast.CallExpr, env *venv) ex {
 		}
 		fn := map[string]string{"Count": "go_count_byte", "LastIndex": "go_last_index_byte", "Index": "go_index_byte"}[name]
 		return ex{binds: a.binds, code: fmt.Sprintf("(%s %d %s)", fn, sep[0], a.code), typ: basicInts["int"]}
+	case (pkg == "strings" || pkg == "bytes") && (name == "IndexByte" || name == "LastIndexByte"):
+		// strings.IndexByte(s, c) = strings.Index(s, string(c)) for a constant byte c
+		need(2)
+		cv, _, ok := tr.g.constEval(tr.p, tr.f, c.Args[1], -1, tr.isVar(env))
+		if !ok || cv.Kind() != constant.Int {
+			gtFail("%s: only a constant byte is in the subset", full)
+		}
+		cb, exact := constant.Int64Val(cv)
+		if !exact || cb < 0 || cb > 255 {
+			gtFail("%s: the byte is out of range", full)
+		}
+		a := tr.expr(c.Args[0], env)
+		if a.typ.kind != kString {
+			gtFail("%s: the first argument is not a string", full)
+		}
+		fn := map[string]string{"IndexByte": "go_index_byte", "LastIndexByte": "go_last_index_byte"}[name]
+		return ex{binds: a.binds, code: fmt.Sprintf("(%s %d %s)", fn, cb, a.code), typ: basicInts["int"]}
 	case pkg == "strconv" && name == "FormatBool":
 		need(1)
 		a := tr.expr(c.Args[0], env)
